@@ -109,6 +109,9 @@ def r1(ctx):
         pos_, neg_ = guard_atoms([t])
 
         def conj(e, depth=4):
+            e0 = peel(e, methods=False)
+            if e0["k"] == "Path" and e0.get("rk") == "Local" and any(w in str(e0.get("name")) for w in need + ["pass_ignores"]):
+                return [e0]         # a reviewed condition held in a local of its own (pass_ignores): decided by C20, not unfolded here
             e = peel(locs.chase(e), methods=False)
             if e["k"] == "Bin" and e["op"] == "&&" and depth:
                 return conj(e["l"], depth - 1) + conj(e["r"], depth - 1)
@@ -116,6 +119,10 @@ def r1(ctx):
         for a_ in [c_ for p_ in pos_ for c_ in conj(p_)]:
             ra = render(a_)
             if "max_depth" in ra and "min_depth" not in ra:
+                extra.append(("if", ra))
+            elif a_["k"] != "LetE" and not any(w in ra for w in need + ["pass_ignores"]):
+                # a further conjunct of one of the reviewed conditions (`.. && self.ok_to_scan_archive(&entry)`): member rows of
+                # an archive the condition rejects are silently missing
                 extra.append(("if", ra))
     ctx.obligation(not extra)
     for s in extra:
